@@ -53,8 +53,9 @@ Definition re_open_close_tag : re := RAlt re_open_tag re_close_tag.
 
 (* HTML_TAG_RE.captures(s).get(0): length in BYTES of the match at the start of s *)
 Definition html_tag_len (s : str) : option N :=
-  match match_prefix re_html_tag (chars s) with
-  | Some rest => Some (len s - len (unchars rest))
+  let cs := chars s in
+  match match_prefix re_html_tag cs with
+  | Some rest => Some (len (unchars (firstn (length cs - length rest) cs)))   (* bytes of the matched characters *)
   | None => None
   end.
 
